@@ -90,6 +90,12 @@ fn knob_key(s: &Setup) -> String {
 
 /// transcript digest (and optionally the lines) of a resolved scenario under a given setup
 pub fn transcript_of(setup: &Setup, events: &[Event], verbose: bool) -> (String, Vec<String>, Counters) {
+    if crate::alloc::enabled() {
+        // allocator seam: placement / fill knobs of this execution (RQSIM_ALLOC_KEY when re-executing a
+        // particular scenario of the batch, a function of the configuration otherwise)
+        let key = std::env::var("RQSIM_ALLOC_KEY").ok().and_then(|k| k.parse().ok()).unwrap_or(setup.oti.f ^ ((setup.oti.t as u64) << 40));
+        crate::alloc::set_knobs_for(key);
+    }
     let sc = Scenario { setup: setup.clone(), events: events.to_vec() };
     let (ex, res) = run_scenario(&sc, Oracles::default(), true, verbose);
     match (ex, res) {
@@ -115,6 +121,9 @@ pub struct Digests {
 /// scenario `idx` of a stream: live simulation under knob vector A, re-execution under B
 pub fn digests_for(seed: u64, stream: u64, idx: u64, max_k: u32) -> Digests {
     let s = run_seed(seed, stream, idx);
+    if crate::alloc::enabled() {
+        crate::alloc::set_knobs_for(s);
+    }
     let out = simulate(s, Profile::C07, oracles_for(Profile::C07), true, max_k);
     let a = match (&out.exec, &out.result) {
         (Some(ex), _) => ex.transcript.as_ref().unwrap().digest.hex(),
@@ -247,6 +256,32 @@ pub fn cmd_exec(args: &[String]) -> i32 {
     0
 }
 
+/// the allocator-seam flavour: this very binary with RQSIM_ALLOC=1 (see alloc.rs)
+pub const ALLOC_FLAVOUR: &str = "release-std-alloc";
+fn alloc_env() -> Option<String> {
+    std::env::current_exe().ok().map(|p| format!("{}#alloc", p.display()))
+}
+/// "path", "path#alloc" or "path#alloc=<key>" -> command with the environment of that flavour
+fn command_for(env: &str) -> Command {
+    match env.split_once("#alloc") {
+        Some((path, rest)) => {
+            let mut c = Command::new(path);
+            c.env("RQSIM_ALLOC", "1");
+            if let Some(k) = rest.strip_prefix('=') {
+                c.env("RQSIM_ALLOC_KEY", k);
+            } else {
+                c.env_remove("RQSIM_ALLOC_KEY");
+            }
+            c
+        }
+        None => {
+            let mut c = Command::new(env);
+            c.env_remove("RQSIM_ALLOC").env_remove("RQSIM_ALLOC_KEY");
+            c
+        }
+    }
+}
+
 fn other_binaries() -> Vec<(&'static str, String)> {
     let mut v = vec![];
     for (name, var) in [("checked-std", "RQSIM_BIN_CHECKED_STD"), ("release-nostd", "RQSIM_BIN_RELEASE_NOSTD"), ("checked-nostd", "RQSIM_BIN_CHECKED_NOSTD")] {
@@ -259,15 +294,54 @@ fn other_binaries() -> Vec<(&'static str, String)> {
     v
 }
 
+/// A sub-process killed by a signal (or aborting) while it executes the code under test is a result,
+/// not a harness error: the first scenario index that kills it is found by bisection over prefixes and
+/// entered with the digest "process-died"; the comparison with this binary's digest then reports it.
 fn remote_digests(bin: &str, seed: u64, stream: u64, from: u64, to: u64, max_k: u32, workers: usize) -> Result<BTreeMap<u64, (String, String, String)>, String> {
-    let out = Command::new(bin)
+    match remote_digests_once(bin, seed, stream, from, to, max_k, workers) {
+        Ok(m) => Ok(m),
+        Err((e, false)) => Err(e),
+        Err((e, true)) => {
+            eprintln!("note: {e}; looking for the first scenario that kills the process");
+            // invariant: [from, lo) survives, [from, hi) dies
+            let (mut lo, mut hi) = (from, to);
+            let mut good: BTreeMap<u64, (String, String, String)> = BTreeMap::new();
+            while hi - lo > 1 {
+                let mid = lo + (hi - lo) / 2;
+                match remote_digests_once(bin, seed, stream, from.max(lo), mid, max_k, workers) {
+                    Ok(m) => {
+                        good.extend(m);
+                        lo = mid;
+                    }
+                    Err((_, true)) => hi = mid,
+                    Err((e, false)) => return Err(e),
+                }
+            }
+            // scenario `lo` alone
+            match remote_digests_once(bin, seed, stream, lo, lo + 1, max_k, 1) {
+                Ok(_) => Err(format!("{bin} c07-digests dies on [{from},{to}) but on no single scenario (not reproducible)")),
+                Err((_, true)) => {
+                    good.insert(lo, ("process-died".into(), "process-died".into(), String::new()));
+                    Ok(good)
+                }
+                Err((e, false)) => Err(e),
+            }
+        }
+    }
+}
+
+/// Err((message, died)) - died = the process was killed by a signal / aborted rather than failing to start
+fn remote_digests_once(bin: &str, seed: u64, stream: u64, from: u64, to: u64, max_k: u32, workers: usize) -> Result<BTreeMap<u64, (String, String, String)>, (String, bool)> {
+    let out = command_for(bin)
         .args(["c07-digests", &seed.to_string(), &stream.to_string(), &from.to_string(), &to.to_string(), &max_k.to_string()])
         .env("VERIF_WORKERS", workers.to_string())
         .stderr(Stdio::null())
         .output()
-        .map_err(|e| format!("cannot run {bin}: {e}"))?;
+        .map_err(|e| (format!("cannot run {bin}: {e}"), false))?;
     if !out.status.success() {
-        return Err(format!("{bin} c07-digests exited with {:?}", out.status.code()));
+        // exit code 2 = this harness refusing its arguments; anything else (signal, abort, panic = 101) happened while running
+        let died = out.status.code() != Some(2);
+        return Err((format!("{bin} c07-digests [{from},{to}) ended with {:?}", out.status), died));
     }
     let mut m = BTreeMap::new();
     for l in String::from_utf8_lossy(&out.stdout).lines() {
@@ -295,7 +369,7 @@ fn digest_in(ctx: &Ctx, env: &str, setup: &Setup, events: &[Event], verbose: boo
     }
     let f = scratch_file(ctx, "exec");
     std::fs::write(&f, json!({"setup": setup, "events": events}).to_string()).unwrap();
-    let mut cmd = Command::new(env);
+    let mut cmd = command_for(env);
     cmd.arg("c07-exec").arg(&f);
     if verbose {
         cmd.arg("verbose");
@@ -386,6 +460,7 @@ fn report_divergence(ctx: &Ctx, d: Divergence) -> Violation {
         Some(h) => format!("xbuild:rand-overflow:K'={}:ISI={}", h.kp, h.isi),
         None => format!("xbuild:{}-vs-{}:F={},T={},Z={},N={},Al={}", d.env1.0, d.env2.0, o.f, o.t, o.z, o.n, o.al),
     };
+    let alloc_key: Option<u64> = [&d.env1.1, &d.env2.1].iter().find_map(|e| e.split_once("#alloc=").and_then(|(_, k)| k.parse::<u64>().ok()));
     Violation {
         property: "C07".into(),
         oracle: format!("transcripts-differ:{}-vs-{}", d.env1.0, d.env2.0),
@@ -396,6 +471,7 @@ fn report_divergence(ctx: &Ctx, d: Divergence) -> Violation {
         observed: format!("{} [{}] vs {} [{}]: {what}", d.env1.0, knob_key(&d.setup1), d.env2.0, knob_key(&d.setup2)),
         scenario: json!({
             "stream": d.stream,
+            "alloc_key": alloc_key,
             "flavours": [d.env1.0, d.env2.0],
             "setup_1": d.setup1,
             "setup_2": d.setup2,
@@ -504,6 +580,17 @@ pub fn run(ctx: &Ctx) -> i32 {
             (name.to_string(), bin.clone(), std::thread::spawn(move || remote_digests(&b, seed, STREAM_SMALL, 0, n_small, SMALL_MAX_K, wshare)))
         })
         .collect();
+    // the allocator-seam flavour (this binary under RQSIM_ALLOC=1) runs the K <= 120, K <= 400 and 700..1300 streams
+    let Some(alloc_bin) = alloc_env() else {
+        eprintln!("HARNESS-ERROR: cannot locate the running binary for the allocator-seam flavour");
+        return 2;
+    };
+    let spawn_alloc = |stream: u64, n: u64, max_k: u32| {
+        let (b, seed) = (alloc_bin.clone(), ctx.seed);
+        std::thread::spawn(move || remote_digests(&b, seed, stream, 0, n, max_k, wshare))
+    };
+    let n_xl = ctx.runs(200, 10_000);
+    let ha_small = spawn_alloc(STREAM_SMALL, n_small, SMALL_MAX_K);
     let (acc_small, fail_small) = local_stream(ctx, STREAM_SMALL, n_small, SMALL_MAX_K, wshare);
     let mut remote: Vec<(String, String, BTreeMap<u64, (String, String, String)>)> = vec![];
     for (name, bin, h) in handles {
@@ -541,6 +628,7 @@ pub fn run(ctx: &Ctx) -> i32 {
         let (b, seed) = (nostd_bin.clone(), ctx.seed);
         std::thread::spawn(move || remote_digests(&b, seed, STREAM_LARGE, 0, n_large, LARGE_MAX_K, wshare))
     };
+    let ha_large = spawn_alloc(STREAM_LARGE, n_large, LARGE_MAX_K);
     let (acc_large, fail_large) = local_stream(ctx, STREAM_LARGE, n_large, LARGE_MAX_K, wshare);
     let remote_large = match hl.join().unwrap() {
         Ok(m) => m,
@@ -551,11 +639,11 @@ pub fn run(ctx: &Ctx) -> i32 {
     };
 
     // extra-large stream (700 <= K <= 1300, one block): release flavours only
-    let n_xl = ctx.runs(200, 10_000);
     let hx = {
         let (b, seed) = (nostd_bin.clone(), ctx.seed);
         std::thread::spawn(move || remote_digests(&b, seed, STREAM_XL, 0, n_xl, XL_MAX_K, wshare))
     };
+    let ha_xl = spawn_alloc(STREAM_XL, n_xl, XL_MAX_K);
     let (acc_xl, fail_xl) = local_stream(ctx, STREAM_XL, n_xl, XL_MAX_K, wshare);
     let remote_xl = match hx.join().unwrap() {
         Ok(m) => m,
@@ -627,6 +715,8 @@ pub fn run(ctx: &Ctx) -> i32 {
             }
             if a != mine || a != b {
                 let d = digests_for(ctx.seed, stream, *idx, max_k);
+                let bin = if bin.ends_with("#alloc") { format!("{bin}={}", run_seed(ctx.seed, stream, *idx)) } else { bin.to_string() };
+                let bin = bin.as_str();
                 let (env1, setup1) = if a != mine { (("release-std".to_string(), "self".to_string()), d.scenario.setup.clone()) } else { ((name.to_string(), bin.to_string()), d.scenario.setup.clone()) };
                 let setup2 = if a != mine { d.scenario.setup.clone() } else { d.setup_b.clone() };
                 violations.push(report_divergence(
@@ -646,6 +736,19 @@ pub fn run(ctx: &Ctx) -> i32 {
     check_remote("release-nostd", &nostd_bin, &remote_xl, &acc_xl.digests, STREAM_XL, XL_MAX_K, &mut violations);
     check_remote("release-nostd", &nostd_bin, &remote_xxl, &acc_xxl.digests, STREAM_XXL, XXL_MAX_K, &mut violations);
     check_remote("release-nostd", &nostd_bin, &remote_giant, &acc_giant.digests, STREAM_GIANT, GIANT_MAX_K, &mut violations);
+    let mut alloc_scenarios = 0u64;
+    for (h, local, stream, max_k) in [(ha_small, &acc_small.digests, STREAM_SMALL, SMALL_MAX_K), (ha_large, &acc_large.digests, STREAM_LARGE, LARGE_MAX_K), (ha_xl, &acc_xl.digests, STREAM_XL, XL_MAX_K)] {
+        match h.join().unwrap() {
+            Ok(m) => {
+                alloc_scenarios += m.len() as u64;
+                check_remote(ALLOC_FLAVOUR, &alloc_bin, &m, local, stream, max_k, &mut violations);
+            }
+            Err(e) => {
+                eprintln!("HARNESS-ERROR: {e}");
+                return 2;
+            }
+        }
+    }
 
     // ---- seeded hazards (ESIs where Rand's 32-bit additions wrap), all flavours
     let hz = hazards();
@@ -710,7 +813,7 @@ pub fn run(ctx: &Ctx) -> i32 {
         ctx,
         &Evidence {
             level: "exploration",
-            evaluations: (acc_small.runs * 8) + (acc_medium.runs * 8) + (acc_large.runs * 4) + (acc_xl.runs * 4) + (acc_xxl.runs * 4) + (acc_giant.runs * 4) + hazards_run.len() as u64 * 4,
+            evaluations: (acc_small.runs * 8) + (acc_medium.runs * 8) + (acc_large.runs * 4) + (acc_xl.runs * 4) + alloc_scenarios * 2 + (acc_xxl.runs * 4) + (acc_giant.runs * 4) + hazards_run.len() as u64 * 4,
             distinct_nontrivial: kv.len() as u64,
             rule: "one evaluation = one execution of a seeded transfer scenario in one environment (build flavour x knob vector); every scenario of the K<=120 stream and of the medium stream (one block of 121..180 symbols) runs in 4 builds x 2 knob vectors, every scenario of the K<=400 stream and of the extra-large streams (one block of 700..1300, of 3000..9000 and of 20000..56403 symbols) in the 2 release builds x 2 knob vectors; transcripts (OTI bytes, every packet emitted, every receiver outcome after every delivery) must be identical. distinct_nontrivial = distinct knob vectors (kernel level, per-replica construction/plan source/encoder threshold, per-receiver decoder threshold) exercised in this binary; each is combined with 4 (resp. 2) build flavours".into(),
             samples,
@@ -721,10 +824,12 @@ pub fn run(ctx: &Ctx) -> i32 {
                 "scenarios_xl_stream": acc_xl.runs,
                 "scenarios_xxl_stream_3000_to_9000_symbols": acc_xxl.runs,
                 "scenarios_giant_stream_20000_to_56403_symbols": acc_giant.runs,
+                "scenarios_re_executed_under_the_allocator_seam": alloc_scenarios,
+                "allocator_seam": "release-std binary with RQSIM_ALLOC=1: every allocation placed shift bytes past a 64-byte boundary (shift in {1,3,7,8,9,15,16,17,31,32,33,48} per scenario, rounded to the layout's alignment), fresh memory filled with a non-zero byte, freed memory overwritten, realloc always moves; streams K<=120, K<=400 and 700..1300, both knob vectors",
                 "transcript_comparisons": comparisons,
                 "events_executed_in_this_binary": acc_small.events + acc_large.events + acc_xl.events,
                 "simulated_ticks": acc_small.ticks + acc_large.ticks + acc_xl.ticks,
-                "build_flavours": ["release-std", "checked-std (debug-assertions + overflow-checks, optimised)", "release-nostd", "checked-nostd"],
+                "build_flavours": ["release-std", "checked-std (debug-assertions + overflow-checks, optimised)", "release-nostd", "checked-nostd", "release-std-alloc (release-std under the allocator seam)"],
                 "kernel_levels_exercised": kernels.to_json(),
                 "fault_kinds_fired": faults.to_json(),
                 "seeded_hazards": hazards_run,
@@ -770,6 +875,12 @@ pub fn replay(ctx: &Ctx, doc: &Value) -> i32 {
     let path_of = |name: &str| -> Option<String> {
         if name == "release-std" {
             return Some("self".into());
+        }
+        if name == ALLOC_FLAVOUR {
+            return alloc_env().map(|e| match sc["alloc_key"].as_u64() {
+                Some(k) => format!("{e}={k}"),
+                None => e,
+            });
         }
         other_binaries().into_iter().find(|(n, _)| *n == name).map(|(_, b)| b)
     };
